@@ -15,7 +15,7 @@ for line in open(os.path.join(ROOT, "properties.jsonl")):
 # id -> (technique, level text, level note, design ref)
 CLAIMED = {
     "C01": (
-        "proptest random search over a choice tape (structured command-tree generator + spec-derived argv generator), totality oracle under catch_unwind, shrinking; thorough tier adds coverage-guided libFuzzer campaigns (cargo-fuzz) over the same decoder and oracle",
+        "proptest random search over a choice tape (structured command-tree generator + spec-derived argv generator), totality oracle under catch_unwind, shrinking; thorough tier adds coverage-guided libFuzzer campaigns (cargo-fuzz) over the same decoder and oracle; the random search runs twice, against clap with all features and against a minimal feature set (harness/minimal)",
         "Hundreds of thousands (thorough: tens of millions) of generated command trees that pass clap's own configuration checks are "
         "parsed against argv built from their own spellings, structural tokens, raw bytes incl. invalid UTF-8, huge and repeated tokens; "
         "every panic outside the configuration assertions, every error that cannot be rendered or breaks the exit contract, and every "
@@ -26,10 +26,10 @@ CLAIMED = {
         "DESIGN.md section 4, C01",
     ),
     "C15": (
-        "generated corpus of derive programs + proptest random search per program with four oracles: agreement with the generated command, "
+        "generated corpus of derive programs + proptest random search per program with four oracles: agreement with the generated command (also extended by the application), "
         "shape-rule interpreter over ArgMatches (reference model), print->parse round trip, update model over histories; bounded-exhaustive "
         "value-enum name tables; shrinking",
-        "A generated, compiled corpus of derive families (138 committed: systematic shape x value-type x spelling matrix + random "
+        "A generated, compiled corpus of derive families (144 committed: systematic shape x value-type x spelling matrix + random "
         "composition with flatten / Option<flatten> / subcommand enums incl. nested, flattened and external variants, rename_all, ids, "
         "aliases, defaults, num_args, delimiters; thorough adds 150 families regenerated from VERIF_SEED) is driven by generated command "
         "lines, generated values and generated update histories. The oracle is an interpreter of the type-shape rules over a plain-data "
